@@ -395,3 +395,48 @@ def multisection_keys(env):
                                else all(np.array_equal(a, b) for a, b in zip(built[k], user[k])))
         env.holds("C19,C08,C18", "multi-section surface: key '%s' read by the aerodynamic components reaches them with the user's value" % k,
                   same, "user %r, analysis point %r" % (user.get(k), built.get(k, "<absent>")))
+
+
+@job("c19.point_wiring", ("C19", "C05", "C06", "C09", "C17", "C18"),
+     cfgs=[dict(nsurf=1, compressible=False, rotational=False), dict(nsurf=2, compressible=True, rotational=True), dict(nsurf=3, compressible=False, rotational=True, _tier=T)])
+def point_wiring(env, nsurf, compressible, rotational):
+    """one quantity, one source inside the aerodynamic analysis point: every component that takes a flight condition (speed,
+    density, angles, Mach and Reynolds number, rotation rates, reference point) reads it from the same source, and no input
+    inside the point keeps its declared default while a component of the point computes a variable of that name"""
+    import openmdao.api as om
+    import warnings
+    from .. import gsx
+    from .c01_components import two_surfaces
+    from .c16 import dangling_inputs
+    surfs = two_surfaces(dict(nx=2, ny=2, symmetry=True, side="left", nsurf=nsurf, tail_sym=True))
+    for s in surfs:
+        s["with_viscous"] = True
+        s["with_wave"] = True
+    p = om.Problem(reports=False)
+    gsx.aero_model(surfs, compressible=compressible, rotational=rotational)(p.model)
+    with warnings.catch_warnings():
+        warnings.simplefilter("ignore")
+        p.setup()
+        p.final_setup()
+    conn = p.model._conn_global_abs_in2out
+    by = {}
+    for tgt, src in conn.items():
+        if tgt.startswith("ap."):
+            by.setdefault(tgt.rsplit(".", 1)[-1], {}).setdefault(src, []).append(tgt)
+    shared = ["v", "rho", "re", "Mach_number", "cg"] + (["omega"] if rotational else [])
+    for nm in shared:
+        srcs = by.get(nm, {})
+        env.holds("C19,C06,C17,C18", "analysis point: every component reads %s from one source" % nm, len(srcs) == 1,
+                  "; ".join("%s <- %s" % (sorted(t)[0], s_) for s_, t in srcs.items()) or "no component reads it")
+    # angles: the compressible solver works in the wind frame (its inner components get alpha = beta = 0 from an internal
+    # constant); everything else reads the user's angles
+    for nm in ("alpha", "beta"):
+        srcs = {s_: t for s_, t in by.get(nm, {}).items()}
+        ext = [s_ for s_ in srcs if s_.startswith("flight.")]
+        internal = [s_ for s_ in srcs if not s_.startswith("flight.")]
+        env.holds("C19,C06,C09", "analysis point: the user's %s has one source" % nm, len(ext) == 1, str(sorted(srcs)))
+        env.holds("C19,C09", "analysis point: an internal source of %s exists only in the compressible solver (wind frame)" % nm,
+                  (not internal) or compressible, str(internal))
+    d = dangling_inputs(p, "ap.", allowed=())
+    env.holds("C19,C05,C06,C18", "analysis point: no input is left at its default while the point computes a variable of that name",
+              not d, "; ".join(d[:4]))
